@@ -105,6 +105,90 @@ fn slippage_verdict_cp(d: [u128; 2], p: [u128; 2], t: u128) -> Spread {
     }
 }
 
+/// Deposits with a slippage tolerance as real transactions on deployed pools (the formula grid above calls the
+/// assertion directly and cannot see how `provide_liquidity` feeds it): constant-product pair, stableswap pair and
+/// three-asset pool with lopsided reserves x deposit shapes x tolerances x the order in which the message lists the
+/// assets. Oracles: the constant-product outcome obeys the documented ratio rule on (deposit, reserves) in pool
+/// order; for every pool type the outcome (accepted or not, LP minted) does not depend on the listing order.
+fn slippage_transactions(ev: &mut Evidence) {
+    use crate::deploy::*;
+    use crate::scn_trio::{trio_pool, trio_provide_ordered};
+    use crate::world::World;
+    let mut w = World::new();
+    let hub = deploy_pool_hub(&mut w, &[("uxxx", 6), ("uzzz", 6)]);
+    let y = token(&w.new_cw20("tyy", 6, &[], OWNER));
+    let assets = [native("uxxx"), y.clone(), native("uzzz")];
+    for u in [ALICE, BOB] {
+        for a in &assets {
+            fund(&mut w, a, u, 1u128 << 90);
+        }
+    }
+    let fees = Fee3::new(ONE18 / 1000, 2 * ONE18 / 1000, ONE18 / 1000);
+    let cp = create_pair(&mut w, &hub, [assets[0].clone(), assets[1].clone()], fees.pool(), PairType::ConstantProduct).expect("cp pair");
+    pair_provide(&mut w, &cp, ALICE, [1_000_000_000, 2_000_000_000], None, None).expect("cp liquidity");
+    let st = create_pair(&mut w, &hub, [assets[1].clone(), assets[2].clone()], fees.pool(), PairType::StableSwap { amp: 100 }).expect("stable pair");
+    pair_provide(&mut w, &st, ALICE, [1_000_000_000, 3_000_000_000], None, None).expect("stable liquidity");
+    let tr = create_trio(&mut w, &hub, [assets[0].clone(), assets[1].clone(), assets[2].clone()], fees.trio(), 100).expect("trio");
+    trio_provide_ordered(&mut w, &tr, ALICE, [1_000_000_000, 2_000_000_000, 4_000_000_000], None, false).expect("trio liquidity");
+    let snap = w.snapshot();
+    let tols: Vec<Option<u128>> = vec![None, Some(0), Some(ONE18 / 100), Some(ONE18 / 2), Some(ONE18 - 1), Some(ONE18)];
+    // deposit shapes relative to reserves r: proportional, inverse ratio, equal amounts, 0.5% off, one-sided
+    let shapes2 = |r: [u128; 2]| -> Vec<[u128; 2]> { vec![[r[0] / 10, r[1] / 10], [r[1] / 10, r[0] / 10], [1_000_000, 1_000_000], [r[0] / 10, r[1] / 10 + r[1] / 2000], [r[0] / 10, 1], [1, r[1] / 10]] };
+    let n = 3 * 6 * tols.len();
+    let res = crate::grid::par_index_with(n, 3, World::new, |i, cx, w| {
+        let pool = i / (6 * tols.len());
+        let shape = (i / tols.len()) % 6;
+        let tol = tols[i % tols.len()].map(dec);
+        w.restore(&snap);
+        let mut outcome: Vec<(bool, u128)> = vec![];
+        for reversed in [false, true] {
+            w.restore(&snap);
+            let (r, minted) = if pool < 2 {
+                let p = if pool == 0 { &cp } else { &st };
+                let (res, _) = pair_pool(w, &p.addr).unwrap();
+                let d = shapes2(res)[shape];
+                let before = w.cw20_balance(&p.lp, BOB);
+                let r = pair_provide_ordered(w, p, BOB, d, tol, None, reversed);
+                if pool == 0 && !reversed {
+                    if let Some(t) = tols[i % tols.len()] {
+                        let v = slippage_verdict_cp(d, res, t);
+                        match &r {
+                            Ok(_) => {
+                                cx.count("slippage_tx:accepted");
+                                cx.check("slippage.accepted_only_within_tolerance", v != Spread::MustReject, || format!("CP deposit {:?} into {:?} tolerance {} accepted although outside the documented ratio bound", d, res, t));
+                            }
+                            Err(e) => {
+                                cx.count("slippage_tx:rejected");
+                                cx.check("slippage.not_rejected_within_tolerance", v != Spread::MustAccept, || format!("CP deposit {:?} into {:?} tolerance {} rejected although within the documented ratio bound: {}", d, res, t, e.msg()));
+                            }
+                        }
+                    }
+                }
+                (r, w.cw20_balance(&p.lp, BOB) - before)
+            } else {
+                let (res, _) = trio_pool(w, &tr.addr).unwrap();
+                let d2 = shapes2([res[0], res[1]])[shape];
+                let d = [d2[0], d2[1], res[2] / 10];
+                let before = w.cw20_balance(&tr.lp, BOB);
+                let r = trio_provide_ordered(w, &tr, BOB, d, tol, reversed);
+                (r, w.cw20_balance(&tr.lp, BOB) - before)
+            };
+            outcome.push((r.is_ok(), minted));
+        }
+        cx.count("slippage_tx:order_pairs");
+        cx.check("slippage.outcome_independent_of_asset_order_in_message", outcome[0] == outcome[1], || {
+            format!("pool {} shape {} tolerance {:?}: assets in pool order -> (accepted, minted) = {:?}, in another order -> {:?}", ["cp", "stable", "3pool"][pool], shape, tols[i % tols.len()], outcome[0], outcome[1])
+        });
+    });
+    ev.add_grid_result(
+        "deposit-slippage-transactions",
+        "real ProvideLiquidity on deployed cp pair / stableswap pair / 3pool with lopsided reserves x 6 deposit shapes x 6 tolerances x asset order in the message {pool order, reversed/rotated}",
+        res,
+        &|i| json!({"pool": i / 36, "shape": (i / 6) % 6, "tolerance_index": i % 6}),
+        &[0, n / 2, n - 1],
+    );
+}
+
 fn slippage_grid(ev: &mut Evidence) {
     let vals: Vec<u128> = vec![1, 2, 3, 5, 7, 10, 12, 100, 999, 1000, 1_000_000, 10u128.pow(18), 10u128.pow(30)];
     let tol: Vec<Option<u128>> = vec![None, Some(0), Some(1), Some(ONE18 / 100), Some(ONE18 / 2), Some(ONE18 - 1), Some(ONE18), Some(ONE18 + 1)];
@@ -202,6 +286,9 @@ pub fn run(tier: &str, seed: u64) -> i32 {
     if ev.violations.is_empty() {
         slippage_grid(&mut ev);
     }
+    if ev.violations.is_empty() {
+        slippage_transactions(&mut ev);
+    }
     let depth = if tier == "quick" { 1 } else { 2 };
     let cfg = default_cfg("C15", tier, seed, depth);
     if ev.violations.is_empty() {
@@ -214,7 +301,7 @@ pub fn run(tier: &str, seed: u64) -> i32 {
         ev.add_report(explore(&RouterScn { property: "C15".into(), fees: TYPICAL }, &cfg));
     }
     if ev.violations.is_empty() {
-        for c in ["spread_grid:accepted", "spread_grid:rejected", "slippage_grid:accepted", "slippage_grid:rejected", "probe:spread:accepted", "probe:spread:rejected_for_spread", "probe:minimum_receive:accepted", "probe:minimum_receive:rejected"] {
+        for c in ["spread_grid:accepted", "spread_grid:rejected", "slippage_grid:accepted", "slippage_grid:rejected", "probe:spread:accepted", "probe:spread:rejected_for_spread", "probe:minimum_receive:accepted", "probe:minimum_receive:rejected", "slippage_tx:accepted", "slippage_tx:rejected"] {
             ev.require_counter(c, 10);
         }
     }
